@@ -6,14 +6,15 @@
 
    MISMATCH: the Added / Removed sequence (with the ids renamed 1,2,.. in order of appearance - the model's ids are a
      counter, so equal sequences also mean "a fresh id every time") or the set of ids Get still answers for differs from
-     what the model does with the channel states the action forces.  When the device serves a re-established transport
-     connection within [fast_us] the goroutine may have missed CONNECTING (Properties/C10_conn.v,
-     C10_conn_skipped_connecting_refuted): the replay with the samples IDLE READY is then admitted as well.
+     what the model (the loop as it is in /repo, [current]; CONN_BEFORE_REPAIR=1 replays the loop before ac94f55) does
+     with the channel states the action forces.  A goroutine that misses CONNECTING (samples IDLE READY) produces the
+     same outputs as one that reads it, so there is no alternative replay any more.
    SPECVIOL (the contract, stated on the observation only):
      c10_conn_survived_channel_loss  a connection that was live before a loss is still handed out after the channel was
                                      re-established (or after the target went away / was disconnected)
      c10_conn_survived_fast_redial   the same, when the re-established transport was served within [fast_us] and the
-                                     first attempt succeeded - the shape of finding F-CONN-1
+                                     first attempt succeeded - the shape of finding F-CONN-1 (fixed by /repo ac94f55:
+                                     a regression if it shows up)
      c10_conn_id_reused              an id is Added a second time (or delivered a third time)
      c10_two_live_connections        two ids of the target answer Get at a probe / Added while another one is live
      c10_unusable_connection_handed_out  a call through a handed-out connection fails, or arrives on an older transport
@@ -24,7 +25,7 @@ open Mlib
 open Mnat
 
 let fast_us = 20000
-let fx = (try Sys.getenv "CONN_FIXED" = "1" with Not_found -> false)
+let fx = (try Sys.getenv "CONN_BEFORE_REPAIR" <> "1" with Not_found -> true)
 
 let kv s =
   List.filter_map (fun f -> match String.index_opt f '=' with
@@ -50,17 +51,16 @@ let parse_phase s =
 
 (* ---- the model side *)
 let cycle_ok = [ Idle; Connecting; Ready ]
-let cycle_skipped = [ Idle; Ready ]                       (* CONNECTING not read *)
 let failed_attempt = [ TransientFailure; Idle; Connecting ]
 
 let rec repeat n l = if n <= 0 then [] else l @ repeat (n - 1) l
 
-(* events the action forces, for goroutine g of target t; [skip]: the alternative in which CONNECTING is missed *)
-let events_of p t g ~skip =
+(* events the action forces, for goroutine g of target t *)
+let events_of p t g =
   let s l = List.map (fun x -> ESample (nat_of_int g, x)) l in
   match p.act with
   | "connect" -> [ EConnect t ] @ s [ Connecting; Ready ]
-  | "cut" -> s (if skip then cycle_skipped else cycle_ok)
+  | "cut" -> s cycle_ok
   | "restart" -> s ([ Idle; Connecting ] @ failed_attempt @ [ Ready ])
   | "refuse" -> s ([ Idle; Connecting ] @ repeat (int_of_string p.arg) failed_attempt @ [ Ready ])
   | "down" -> s [ Idle; Connecting; TransientFailure ]
@@ -107,21 +107,12 @@ let () =
           (* ---------- replay through the extracted model *)
           if p.act = "connect" then incr g;
           let first_attempt_ok = p.act = "cut" in
-          let try_replay skip =
-            let m', os = run_events !m (events_of p t !g ~skip) in
-            (m', os, show_outs os = show_ev (List.filter (fun (k, _) -> k <> 'X') p.ev) && model_live m' t = p.live
-                     && not (List.exists (fun (k, _) -> k = 'X') p.ev)) in
-          let m1, os1, ok1 = try_replay false in
-          if ok1 then m := m1
-          else begin
-            let m2, _, ok2 = if first_attempt_ok && p.sd < fast_us then try_replay true else (m1, [], false) in
-            if ok2 then begin stat "replay_with_connecting_not_read"; m := m2 end
-            else begin
-              mismatch id (Printf.sprintf "%s: model events %s live %s, implementation events %s live %s"
-                             (where p) (show_outs os1) (show_ints (model_live m1 t)) (show_ev p.ev) (show_ints p.live));
-              m := m1
-            end
-          end;
+          let m1, os1 = run_events !m (events_of p t !g) in
+          let ok1 = show_outs os1 = show_ev p.ev && model_live m1 t = p.live in
+          if not ok1 then
+            mismatch id (Printf.sprintf "%s: model events %s live %s, implementation events %s live %s"
+                           (where p) (show_outs os1) (show_ints (model_live m1 t)) (show_ev p.ev) (show_ints p.live));
+          m := m1;
           (* ---------- the contract, on the observation *)
           List.iter (fun (k, i) ->
               match k with
